@@ -38,6 +38,18 @@ theorem C04_pick_complete (f : Filters) (ms : List String) (m : String) (hm : m 
     have := h m (by simpa using hm)
     simp [ha] at this
 
+/-- the list is popped from the back: the last admissible entry wins, whatever comes before it -/
+theorem C04_pick_last (f : Filters) (ms : List String) (m : String) (ha : f.admits m = true) :
+    pick f (ms ++ [m]) = some m := by
+  unfold pick
+  simp [List.reverse_append, List.find?_cons, ha]
+
+/-- an inadmissible last entry is skipped -/
+theorem C04_pick_skips (f : Filters) (ms : List String) (m : String) (ha : f.admits m = false) :
+    pick f (ms ++ [m]) = pick f ms := by
+  unfold pick
+  simp [List.reverse_append, List.find?_cons, ha]
+
 /-- the defect repaired in /repo 7bacfa8d: `struct C : A, B { int fb(int) override; }` — libclang lists
 the method and then its thunk; without the filter the thunk is bound -/
 theorem C04_unfiltered_binds_thunk :
